@@ -21,7 +21,7 @@ import (
 )
 
 func c03Gen(r *rand.Rand, tier string) any {
-	o := genOpts{MaxTargets: 5, MaxMods: 2, BigValues: false, Flags: false, Always: true, GenSources: true}
+	o := genOpts{MaxTargets: 5, MaxMods: 2, BigValues: false, Flags: false, Always: true, GenSources: true, Exts: 20}
 	if tier == "thorough" {
 		o.MaxTargets = 7
 	}
